@@ -241,6 +241,20 @@ fn check_archive_words(c: &ArcChunk, word: &dyn Fn(u64) -> (u16, u16)) -> Result
         let mut e = EntrySpec::simple(format!("e{k}").as_bytes(), 0, Content::Bytes(vec![]));
         e.dos_date = d;
         e.dos_time = t;
+        // every third entry also carries well-formed timestamp records of other conventions (Info-ZIP
+        // extended timestamp, NTFS, old Unix) that state a DIFFERENT time, and varying producer systems:
+        // the DOS words are what the property pins down
+        if k % 3 == 1 {
+            for (i, r) in crate::genf::well_known_extras(&e.name.clone(), b"", 4 | 16 | 32).into_iter().enumerate() {
+                if (i as u64 + k) % 2 == 0 {
+                    e.central_extra_before.push(r.clone());
+                } else {
+                    e.central_extra_after.push(r.clone());
+                }
+                e.local_extra.push(r);
+            }
+            e.made_by = ([3u16, 0, 10, 19][(k / 3 % 4) as usize] << 8) | 20;
+        }
         entries.push(e);
     }
     let spec = ArchiveSpec::plain(entries);
